@@ -55,6 +55,7 @@ type c17Walker struct {
 	fn       *c17Fn
 	imports  map[string]bool
 	helper   map[string]bool // nil in the first pass
+	count    map[string]bool // handler mode: count calls of these methods per path instead of lock sections
 	held     bool
 	cnt      int  // critical sections with an access on the current path
 	curHas   bool // the open critical section already has one
@@ -124,6 +125,12 @@ func (w *c17Walker) exprs(n ast.Node) {
 				name = f.Name
 			case *ast.SelectorExpr:
 				name = f.Sel.Name
+			}
+			if w.count != nil {
+				if w.count[name] && w.closure == 0 {
+					w.cnt++
+				}
+				return true
 			}
 			if name != "" {
 				w.fn.callees[name] = true
@@ -434,4 +441,84 @@ func extractC17() {
 	sort.Strings(fields)
 	g.def("guardedFields", "List String", leanList(fields))
 	g.def("lockTable", "List (String × Nat × Nat × Nat × Bool)", "["+strings.Join(rows, ", ")+"]")
+	g.def("handlerTable", "List (String × Nat × Nat × List String)", "["+strings.Join(c17Handlers(), ", ")+"]")
+}
+
+// c17Handlers: for every ServeHTTP method of package har, (receiver type, least / greatest number of
+// calls of the Logger's log methods — Export, ExportAndReset, Reset — on ONE execution, the log
+// methods whose RESULT is what gets encoded to the client). The harness and the model treat a
+// handler call as exactly one Logger call whose result is the answer: a handler that reads with one
+// call and clears with another (or answers from one call and clears with another) is not atomic.
+func c17Handlers() []string {
+	logMethods := map[string]bool{"Export": true, "ExportAndReset": true, "Reset": true}
+	var rows []string
+	dir := filepath.Join(repo, "har")
+	ents, _ := os.ReadDir(dir)
+	for _, de := range ents {
+		n := de.Name()
+		if de.IsDir() || !strings.HasSuffix(n, ".go") || strings.HasSuffix(n, "_test.go") {
+			continue
+		}
+		f := parse(filepath.Join("har", n))
+		for _, d := range f.Decls {
+			fd, ok := d.(*ast.FuncDecl)
+			if !ok || fd.Body == nil || fd.Name.Name != "ServeHTTP" || fd.Recv == nil || len(fd.Recv.List) != 1 {
+				continue
+			}
+			recv := src(fd.Recv.List[0].Type)
+			recv = strings.TrimPrefix(recv, "*")
+			// which log method produced each variable (last assignment wins; source order)
+			produced := map[string]string{}
+			callee := func(e ast.Expr) string {
+				c, ok := e.(*ast.CallExpr)
+				if !ok {
+					return ""
+				}
+				if sel, ok := c.Fun.(*ast.SelectorExpr); ok && logMethods[sel.Sel.Name] {
+					return sel.Sel.Name
+				}
+				return ""
+			}
+			encoded := map[string]bool{}
+			ast.Inspect(fd.Body, func(x ast.Node) bool {
+				switch st := x.(type) {
+				case *ast.AssignStmt:
+					if len(st.Lhs) == 1 && len(st.Rhs) == 1 {
+						if id, ok := st.Lhs[0].(*ast.Ident); ok {
+							if m := callee(st.Rhs[0]); m != "" {
+								produced[id.Name] = m
+							}
+						}
+					}
+				case *ast.CallExpr:
+					if sel, ok := st.Fun.(*ast.SelectorExpr); ok && (sel.Sel.Name == "Encode" || sel.Sel.Name == "Marshal" || sel.Sel.Name == "Write") && len(st.Args) >= 1 {
+						arg := st.Args[len(st.Args)-1]
+						if id, ok := arg.(*ast.Ident); ok {
+							if m, ok := produced[id.Name]; ok {
+								encoded[m] = true
+							}
+						} else if m := callee(arg); m != "" {
+							encoded[m] = true
+						}
+					}
+				}
+				return true
+			})
+			// calls per path: the lock walker with "a call of a log method" as the event, each
+			// call its own section
+			fn := &c17Fn{name: "ServeHTTP", callees: map[string]bool{}}
+			w := &c17Walker{fn: fn, imports: map[string]bool{}, count: logMethods}
+			if w.block(fd.Body.List) {
+				w.exit()
+			}
+			var enc []string
+			for m := range encoded {
+				enc = append(enc, m)
+			}
+			sort.Strings(enc)
+			rows = append(rows, fmt.Sprintf("(%s, %d, %d, %s)", leanStr(recv), fn.minSecs, fn.maxSecs, leanList(enc)))
+		}
+	}
+	sort.Strings(rows)
+	return rows
 }
